@@ -193,6 +193,24 @@ CLAIMS = {
 NOT_YET = "machinery for this property is not built yet in this round (work in progress; see DESIGN.md section 5)"
 
 
+# what was added to a check after its claim text was written (DESIGN.md sections 5 and 6c have the detail)
+EXTRA = {
+    "C01": " Also validated: windows of the repository's test ROMs and of generated busy programs executed on the full machine (each unit against IntCtl and SM83!Exec), every opcode in the CPU states only a real HALT produces, with a key event in mid-instruction, with the CPU trace on, with an idle second emulator alive; SM83_Meta cross-checks the spec against the repository's own instruction table.",
+    "C02": " Also validated: ROM and generated-program windows on the full machine, every opcode after a real HALT, with key events in mid-instruction, with an OAM DMA under way, branches onto themselves (run state after every unit); SM83_Meta cross-checks lengths and cycle counts against the repository's own instruction table.",
+    "C03": " Also validated: ROM and generated-program windows on the full machine, every opcode after a real HALT, with key events in mid-instruction, with the CPU trace on, with an OAM DMA under way, and with OAM (LCD off) as a data region.",
+    "C04": " Also validated: HALT x IME x IE x IF with late requests, dispatches whose pushes land on IE / IF, ROM and generated-program windows on the full machine.",
+    "C05": " Also validated: two-HALT programs, ROM and generated-program windows on the full machine, an idle second emulator alive.",
+    "C06": " Also: start state 'LCD switched off in mid-scan', CPU-style accesses (oam.Corrupt after each), register read-back while the hardware behind the register is busy, cross reads of other registers and region-boundary cells after every write.",
+    "C07": " Also: footprints from hot states (sound channels running, timer about to overflow, serial transfer under way).",
+    "C08": " Leg C: TLC emits one test per (register state, control write) of the complete register graphs (84 k MBC1, 40 k MBC3, 58 k MBC5, 680 MBC2) and the harness replays them on the real controllers.",
+    "C09": " Leg C: TLC emits one test per (register state, control write) of the complete register graphs and the harness replays them on the real controllers (RAM target = the one cell that changes in the dump).",
+    "C12": " Also validated: whole test ROMs (mooneye timer, blargg timing) and generated programs run by package gameboy's own frame loop, DIV / TIMA / request after every machine cycle against Timer.tla.",
+    "C18": " The NR52 status nibble is judged with C19's channel / length model on the shared `len` family (schedules incl. writes while powered off, blargg dmg_sound ROMs as program traces).",
+    "C19": " Also validated: blargg dmg_sound ROMs as program traces (CPU writes to FF10-FF26 with NR52 after each).",
+    "C23": " Also validated: serial transcripts of blargg ROMs against their SB writes; one run of more than 65,536 bytes.",
+}
+
+
 def main():
     checks = []
     for pid in ALL:
@@ -206,7 +224,7 @@ def main():
             "evidence_file": "/verif/evidence/%s.json" % pid,
             "replay_cmd_template": "bin/check %s --replay {path}" % pid,
             "engine": "tlc-trace",
-            "level_claimed": {"category": c["category"], "text": c["text"], "design_ref": "DESIGN.md section " + c["design"]},
+            "level_claimed": {"category": c["category"], "text": c["text"] + EXTRA.get(pid, ""), "design_ref": "DESIGN.md section " + c["design"]},
             "level_note": c["note"],
             "technique": c["technique"],
         })
